@@ -84,6 +84,7 @@ type c11Summary struct {
 	Samples     []C11Result    `json:"samples"`
 	Signature   string         `json:"budget_error_signature"`
 	EntrySites  int            `json:"parse_expr_entry_sites"`
+	TwinProbes  int            `json:"fresh_twin_probes"`
 	Violations  int            `json:"violations"`
 	InputHashes []uint64       `json:"input_hashes"`
 }
@@ -154,6 +155,8 @@ func workerC11(cfg WorkerCfg) int {
 				Replay: mustJSON(map[string]interface{}{"engine": "abortsim", "property": "C11", "seed": cfg.Seed, "case": min, "violation": vv})})
 		}
 	}
+	sum.TwinProbes = runTwins(env, cfg.Seed, cfg.From, func(v Violation) { cfg.Emit(v) })
+	steps += stepsNow()
 	sum.Steps = steps
 	cfg.Emit(sum)
 	return 0
@@ -161,6 +164,9 @@ func workerC11(cfg WorkerCfg) int {
 
 func replayC11(cfg WorkerCfg) int {
 	if handled, code := replayVolume(cfg); handled {
+		return code
+	}
+	if handled, code := replayTwin(cfg); handled {
 		return code
 	}
 	b, err := os.ReadFile(cfg.File)
